@@ -41,11 +41,11 @@ def model : Handler := fun j => do
 a line number, in pre-order; and the list of positioned type names. -/
 def spec : Handler := fun j => do
   let t ← C15.getTree j
-  let t' := tweak [] (onTheFly specCfg t)
+  let t' := tweak [] (prep specCfg t)
   let ps := positionedNodes t'
   pure (Json.mkObj [("nodes", Json.arr (ps.map fun p => Json.arr #[strJ p.1, Json.num (p.2 : Nat)]).toArray),
     ("wf", Json.bool (treeOk t')),
-    ("wf_pipeline", Json.bool (wfStages6 (onTheFly implCfg t) && treeOk (stage6 (onTheFly implCfg t))))])
+    ("wf_pipeline", Json.bool (wfStages6 (prep implCfg t) && treeOk (stage6 (prep implCfg t))))])
 
 /-- `c01.whole`: the hand matcher of the `whole_span` pattern and its bindings. -/
 def whole : Handler := fun j => do
@@ -62,7 +62,7 @@ def whole : Handler := fun j => do
 first / last positioned line in dump order. -/
 def treeSpan : Handler := fun j => do
   let t ← C15.getTree j
-  let t' := tweak [] (onTheFly specCfg t)
+  let t' := tweak [] (prep specCfg t)
   let ps := positionedNodes t'
   let first := match ps.head? with
     | some p => Json.num (p.2 : Nat)
@@ -70,8 +70,9 @@ def treeSpan : Handler := fun j => do
   let last := match ps.getLast? with
     | some p => Json.num (p.2 : Nat)
     | none => Json.null
-  pure (Json.mkObj [("wf2", Json.bool (treeOk2 t')),
-    ("monotone", Json.bool (decide (PreorderMonotone (entries [] [] t')))),
+  pure (Json.mkObj [("wf2", Json.bool (treeOk2 t')), ("wf3", Json.bool (treeOk3 t')),
+    ("monotone", Json.bool (namesOkTree t' && lastDescMono [] [] t')),
+    ("monotone_preorder", Json.bool (decide (PreorderMonotone (entries [] [] t')))),
     ("first", first), ("last", last), ("count", Json.num (ps.length : Nat))])
 
 def handlers : List (String × Handler) :=
